@@ -60,6 +60,21 @@ CHECKS = {
             'identity = Python id(); topological order compared for validity, not equality; graft/flatten only on '
             'acyclic expansions; c16_pinned_refuted keeps the pinned graft (A19) refuted.',
             '5 (C16)'),
+    'C14': ('Lean 4 proof: file-state invariant over histories of write / crash-at-any-byte / delete / corrupt, '
+            'read_env = function of the completely written files (pickle as a parametric prefix-free codec, '
+            'hypotheses satisfiable and checked on real pickle at every byte) + differential correspondence through '
+            'the real write_env/read_env on temp dirs + every-byte truncation sweep',
+            'bad_file_not_done: for every history of writes, writes killed after any number of bytes of any file, '
+            'deletions and corruptions, read_env (model of the repaired from_file) does not raise and every entry it '
+            'returns is a DONE entry held by a completely written file (never_spurious_done); roundtrip: a DONE entry '
+            'with output_dir root/<name> is read back exactly, whatever the files held before; read_total gives the '
+            'result as a function of the ghost file states; simpleCodec_good shows the codec hypotheses are satisfiable; '
+            'c14_pinned_refuted keeps the pinned from_file (A16) refuted. Tied to the code by running the same '
+            'histories through write_env/read_env with real pickle and by cutting a written file at every byte.',
+            'Trusted: Lean kernel + standard axioms; pickle modelled as a codec whose proper prefixes raise '
+            'EOFError/UnpicklingError (checked at every byte of the swept files); a killed writer leaves a byte prefix; '
+            'unreadable content limited to the exception classes pickle documents or a non-Env object.',
+            '5 (C14)'),
 }
 
 NOT_YET = 'check not built yet in this round (planned in DESIGN.md section 5); no claim is made'
